@@ -702,42 +702,45 @@ IMP_HOOKS = r"""
 """
 
 
-def import_own_lists_harness(res, kind):
-    """C07/C05, import direction: own handles inside list<own<r>> / list<record { h: own<r>, n: u32 }> parameters"""
+def import_own_lists_harness(res, kind, recs):
+    """C07/C05, import direction: own handles inside list<own<r>> / list<record { h: own<r>, n: u32 }> parameters.
+    Exactly 2 elements (concrete): Cleanup::drop poisons the temporary buffer byte by byte, which needs unwind 18, and a
+    symbolic length under that unwinding bound aborts CBMC at the 12 GB cap (measured)."""
     c = camel(res.name)
-    return "\n".join(["#[kani::proof]", "#[kani::unwind(4)]", """pub fn k_imp_own_lists() { unsafe {
+    nm = "records" if recs else "handles"
+    if recs:
+        body = """let mut v = Vec::new();
+    v.push(mi::Rhi { h: mi::%(c)s::from_handle(h1), n: n1 });
+    v.push(mi::Rhi { h: mi::%(c)s::from_handle(h2), n: n2 });
+    IMP_HOOK = Some(hook_list_handle_records);
+    mi::eat_recs(v);""" % {"c": c}
+    else:
+        body = """let mut v = Vec::new();
+    v.push(mi::%(c)s::from_handle(h1));
+    v.push(mi::%(c)s::from_handle(h2));
+    IMP_HOOK = Some(hook_list_handles);
+    mi::eat_list(v);""" % {"c": c}
+    vals = """kani::assert(SEEN[1] == n1 as u64, "C05|arg|value");
+    kani::assert(SEEN[3] == n2 as u64, "C05|arg|value");""" if recs else ""
+    return "\n".join(["#[kani::proof]", "#[kani::unwind(18)]", """pub fn k_imp_own_list_%(nm)s() { unsafe {
     let h1: u32 = kani::any(); kani::assume(h1 != 0 && h1 != u32::MAX);
     let h2: u32 = kani::any(); kani::assume(h2 != 0 && h2 != u32::MAX && h2 != h1);
     let n1: u32 = kani::any(); let n2: u32 = kani::any();
-    let n: usize = kani::any(); kani::assume(n <= 2);
-    let recs: bool = kani::any();
     led::begin();
-    if !recs {
-      let mut v = Vec::new();
-      if n > 0 { v.push(mi::%(c)s::from_handle(h1)); }
-      if n > 1 { v.push(mi::%(c)s::from_handle(h2)); }
-      IMP_HOOK = Some(hook_list_handles);
-      mi::eat_list(v);
-    } else {
-      let mut v = Vec::new();
-      if n > 0 { v.push(mi::Rhi { h: mi::%(c)s::from_handle(h1), n: n1 }); }
-      if n > 1 { v.push(mi::Rhi { h: mi::%(c)s::from_handle(h2), n: n2 }); }
-      IMP_HOOK = Some(hook_list_handle_records);
-      mi::eat_recs(v);
-    }
+    %(body)s
     kani::assert(IMP_CALLS == 1, "C05|arg|call: the import is called exactly once");
-    kani::assert(SEEN_N == n, "C05|arg|len");
-    kani::assert(n == 0 || SEEN[0] == h1 as u64, "C07|import-own|the host receives exactly the handles the guest passed");
-    kani::assert(n <= 1 || SEEN[2] == h2 as u64, "C07|import-own|the host receives exactly the handles the guest passed");
-    kani::assert(!recs || n == 0 || SEEN[1] == n1 as u64, "C05|arg|value");
-    kani::assert(!recs || n <= 1 || SEEN[3] == n2 as u64, "C05|arg|value");
+    kani::assert(SEEN_N == 2, "C05|arg|len");
+    kani::assert(SEEN[0] == h1 as u64, "C07|import-own|the host receives exactly the handles the guest passed");
+    kani::assert(SEEN[2] == h2 as u64, "C07|import-own|the host receives exactly the handles the guest passed");
+    %(vals)s
     kani::assert(hl::HN == 0, "C07|import-own|owned handles transferred inside a list are not dropped by the guest");
     kani::assert(!led::NATIVE || led::LIVE == 0, "C06|leak|native ledger: no block is live at the end");
-    kani::cover!(!recs && n == 2, "two handles"); kani::cover!(recs && n == 2, "two records"); kani::cover!(n == 0, "empty list");
+    kani::cover!(true, "reached the end");
     // @DISPATCH@
-  } }""" % {"c": c}]), {
-        "function": "ri: eat-list / eat-recs", "class": "import-list-own", "assumes": ["handle indices are non-zero table indices below u32::MAX"],
-        "unwind": 4, "props": ["C07", "C05", "C06"], "direction": "import", "heap": True, "handles": True}
+  } }""" % {"nm": nm, "body": body, "vals": vals}]), {
+        "function": "ri: %s" % ("eat-recs" if recs else "eat-list"), "class": "import-list-own-%s" % nm,
+        "assumes": ["handle indices are non-zero table indices below u32::MAX", "list length: CONCRETE 2"],
+        "unwind": 18, "props": ["C07", "C05", "C06"], "direction": "import", "heap": True, "handles": True}
 
 
 def import_maps_harness(which):
@@ -747,7 +750,7 @@ def import_maps_harness(which):
     hook = {"option": "hook_option_map", "list": "hook_list_map"}[which]
     extra = {"option": 'kani::assert(IMP_A[0] == 1 && SEEN_N == 1, "C05|arg|len");',
              "list": 'kani::assert(SEEN_N == 1 && SEEN[4] == 1, "C05|arg|len");'}[which]
-    return "\n".join(["#[kani::proof]", "#[kani::unwind(3)]", """pub fn k_imp_%(w)s_map() { unsafe {
+    return "\n".join(["#[kani::proof]", "#[kani::unwind(18)]", """pub fn k_imp_%(w)s_map() { unsafe {
     let k: u32 = kani::any(); let v: u64 = kani::any();
     led::begin();
     let mut m = wit_bindgen::rt::Map::new();
@@ -765,7 +768,7 @@ def import_maps_harness(which):
   } }""" % {"w": which, "hook": hook, "call": call, "extra": extra}]), {
         "function": "ri: put-map%s" % ("s" if which == "list" else ""), "class": "import-%s-map-u32-u64-len1" % which,
         "assumes": ["map<u32,u64>: CONCRETE entry count 1 (key and value symbolic)"],
-        "unwind": 3, "props": ["C06", "C05"], "direction": "import", "heap": True, "handles": False}
+        "unwind": 18, "props": ["C06", "C05"], "direction": "import", "heap": True, "handles": False}
 
 
 # --------------------------------------------------------------------------
@@ -1051,9 +1054,10 @@ def build_lib(world, w_rs, opts, L, S, tier, nl=None):
         harnesses["k_res_import_calls"] = dict(meta, text=text)
         parts.append(text)
     if world.imp_res and "eat-list" in imp_names:
-        text, meta = import_own_lists_harness(world.imp_res[0], res_ids[world.imp_res[0].name])
-        harnesses["k_imp_own_lists"] = dict(meta, text=text)
-        parts.append(text)
+        for recs in (False, True):
+            text, meta = import_own_lists_harness(world.imp_res[0], res_ids[world.imp_res[0].name], recs)
+            harnesses["k_imp_own_list_%s" % ("records" if recs else "handles")] = dict(meta, text=text)
+            parts.append(text)
     for which, fn in (("option", "put-map"), ("list", "put-maps")):
         if fn in imp_names:
             text, meta = import_maps_harness(which)
